@@ -9,16 +9,17 @@ listing, every environment (templates, components, built-ins), every context and
 Property theorems only; helper lemmas are in Lemmas/VmWriterOut.lean (one lemma per instruction
 arm), Lemmas/VmWriterTrace.lean (the ghost trace: a thin wrapper around the REAL `step`) and
 Lemmas/VmWriterFeed.lean (`runW`, `renderToW`: the run under an arbitrary writer of
-Model/Writer.lean).
+Model/Writer.lean), Lemmas/VmWriterExact.lean (`interpW`: the writer threaded through the loop; the
+two writer families of the harness).
 
 Not in the model, hence still only covered by harness/src/bin/c18.rs: that each write site of the
 Rust propagates the error with `?` (here: "the run stops at the first refused call" is how `feed`
 is defined), thread schedules, `Send`/`Sync`.
 -/
-import TeraModel.Lemmas.VmWriterFeed
+import TeraModel.Lemmas.VmWriterExact
 namespace Tera.C18Vm
 open Tera Tera.Vm
-open Tera.W (Writer Sink NeverFails failAtCall acceptBytes trickle recorder)
+open Tera.W (Writer Sink NeverFails failAtCall acceptBytes trickle recorder userDev)
 
 /-! ## W1 — the output only grows -/
 
@@ -222,6 +223,72 @@ theorem vm_writer_cannot_change_outcome {σ : Type} (W : Writer σ) (sp : Split)
   · rw [h2] at h; simp only [WOutcome.fin.injEq] at h; exact h
   · rw [h2] at h; cases h
 
+/-- **Stopping early = stopping afterwards.**  `interpW` threads the writer through the interpreter
+loop: after every turn the `write_all` calls of that turn are made, and at the first refusal the
+loop returns the I/O error without looking at the next instruction (what the `?` after each
+`write_all` does).  It computes exactly `runW`, which feeds the trace of the complete run: the VM
+never reads its output, so the two cannot be told apart — result and writer state. -/
+theorem vm_writer_threaded_eq {σ : Type} (W : Writer σ) (sp : Split) (fuel : Fuel) (env : Env)
+    (vm : VmCtx) (c : Chunk) (st : State) (s0 : σ) :
+    interpW W sp fuel env vm c st s0 = runW W sp fuel env vm c st s0 :=
+  interpW_eq_runW W sp fuel env vm c st s0
+
+/-- **The byte-budget writer of the harness, exactly** (`acceptBytes_accepted_exact` of
+Props/C18.lean on the real VM model).  A writer that accepts `n` bytes in total (splitting the last
+buffer: a partial write) and then refuses has accepted, when `render_to` returns, exactly the first
+`n` bytes of everything the render writes — every listing, both entry modes, every cut. -/
+theorem vm_acceptBytes_accepted_exact (n : Nat) (sp : Split) (fuel : Fuel) (env : Env) (name : String)
+    (block : Option String) (ctx globalCtx : Ctx) :
+    (renderToW acceptBytes sp fuel env name block ctx globalCtx n).2.accepted
+      = (renderBytes fuel env name block ctx globalCtx).take n := by
+  unfold renderToW renderBytes
+  cases htpl : env.template name with
+  | none => simp [Sink.fresh]
+  | some tpl =>
+    simp only
+    split
+    · simp [Sink.fresh]
+    · cases hc : entryChunk env tpl with
+      | none => simp [Sink.fresh]
+      | some chunk =>
+        simp only
+        rw [← renderCalls_flatten sp]
+        exact feed_acceptBytes_exact n _ _ _
+
+/-- **The call-index writer of the harness, exactly** (`failAtCall_exact` of Props/C18.lean on the
+real VM model).  A writer that refuses its `k`-th `write` call (0-based) and every later one:
+when `render_to` returns it has accepted exactly the first `k` non-empty `write_all` calls of the
+render, and `render_to` returns the I/O error iff there was a `k`-th call. -/
+theorem vm_failAtCall_exact (k : Nat) (sp : Split) (fuel : Fuel) (env : Env) (name : String)
+    (ctx globalCtx : Ctx) (tpl : TemplateInfo) (chunk : Chunk) (htpl : env.template name = some tpl)
+    (hc : entryChunk env tpl = some chunk) :
+    let calls := nonEmpty (callsOf sp (traceRun noGuard fuel env
+      { template := tpl, autoescapeOverride := none, depth := 0 } chunk (entryState none ctx globalCtx)).2)
+    (renderToW (failAtCall k) sp fuel env name none ctx globalCtx 0).2.accepted = (calls.take k).flatten ∧
+    ((∃ s, renderToW (failAtCall k) sp fuel env name none ctx globalCtx 0 = (.io, s)) ↔ k < calls.length) := by
+  intro calls
+  unfold renderToW
+  simp only [htpl, hc, lineageMissing, Bool.false_eq_true, ↓reduceIte, renderCalls]
+  -- the two results of `feed` are told apart by a Bool so that `feed_failAtCall_exact` applies
+  have key := feed_failAtCall_exact k (callsOf sp (traceRun noGuard fuel env
+    { template := tpl, autoescapeOverride := none, depth := 0 } chunk (entryState none ctx globalCtx)).2)
+    true false (by decide)
+  unfold feed at key ⊢
+  cases hw : (userDev (failAtCall k)).writeChunks (Sink.fresh 0) (callsOf sp (traceRun noGuard fuel env
+    { template := tpl, autoescapeOverride := none, depth := 0 } chunk (entryState none ctx globalCtx)).2) with
+  | mk s ok =>
+    rw [hw] at key
+    cases ok with
+    | true =>
+      simp only at key ⊢
+      refine ⟨key.1, ?_⟩
+      constructor
+      · rintro ⟨s', h⟩; cases h
+      · intro h; exact absurd (key.2.2 h) (by decide)
+    | false =>
+      simp only at key ⊢
+      exact ⟨key.1, fun _ => key.2.1 trivial, fun _ => ⟨s, rfl⟩⟩
+
 /-! ## W3 — rendering is pure -/
 
 /-- **Rendering is pure.**  In the model this is immediate, and it is the point: `render` is a
@@ -287,6 +354,13 @@ example : (traceRun noGuard ⟨3, 100⟩ exEnv
 /-- refusing the fourth non-empty `write_all` (inside the include): I/O error, and the writer holds
 `<p>&lt;a[` — a prefix that ends in the middle of the included template -/
 example : (match renderToW (failAtCall 3) wholeSplit ⟨3, 100⟩ exEnv "t" none exCtx [] 0 with
+    | (.io, s) => s.failed && s.accepted == toBytes "<p>&lt;a[".toList
+    | _ => false) = true := by decide +kernel
+
+/-- the same with the writer threaded through the loop (`interpW`): it stops at that turn -/
+example : (match interpW (failAtCall 3) wholeSplit ⟨3, 100⟩ exEnv
+      { template := ⟨"t", exMain, true, [], [], []⟩, autoescapeOverride := none, depth := 0 } exMain
+      (entryState none exCtx []) 0 with
     | (.io, s) => s.failed && s.accepted == toBytes "<p>&lt;a[".toList
     | _ => false) = true := by decide +kernel
 
